@@ -503,7 +503,11 @@ func TestVerifC04(t *testing.T) {
 		if err != nil {
 			t.Fatal(err)
 		}
-		ops = strings.Split(strings.TrimSpace(string(data)), "\n")
+		for _, l := range strings.Split(strings.TrimSpace(string(data)), "\n") {
+			if l != "" && !strings.HasPrefix(l, "#") {
+				ops = append(ops, l)
+			}
+		}
 	} else {
 		g := &c04Gen{rng: zz.NewRNG(zz.Seed())}
 		// corpus of minimised past failures first
